@@ -3,6 +3,16 @@
 
 def generate(G):
     L = G.leaf
+    for id, prog, ls, stubs, inexact, tier in [("sigmoid", "Sigmoid", [L([2], "D2")], ("exp",), True, "quick"),
+                                               ("mul", "Mul", [L([2]), L([2])], (), False, "thorough"),
+                                               ("exp", "Exp", [L([2])], ("exp",), True, "thorough"),
+                                               ("relu", "Relu", [L([2], "Sgn")], (), False, "thorough")]:
+        G.ob("c17_linear_same_graph_" + id, "C17", "linear_same_graph",
+             "c17::linear_same_graph(s, &programs::%s, %s, %s)" % (prog, G.leaves(ls), "true" if inexact else "false"),
+             unwind=7, tier=tier, stubs=stubs,
+             skeleton={"program": prog, "what": "three passes over the same graph, gradients taken out in between: s1, s2, alpha*s1+beta*s2"})
+    G.ob("c17_default_seed_two_shapes", "C17", "default_seed", "c17::default_seed_two_shapes(s)", unwind=7, tier="quick",
+         skeleton={"what": "unseeded passes on results of dimensions [1,2], [2,1] and [2,2] in a row"})
     progs = [("mul", "Mul", [L([2]), L([2])], "quick", 6), ("muladdshare", "MulAddShare", [L([2]), L([2])], "quick", 6),
              ("square", "Square", [L([2])], "quick", 6), ("bcast", "Mul", [L([2]), L([1, 2], "D4")], "quick", 8), ("bcast2x2", "Mul", [L([2]), L([2, 2], "D2")], "thorough", 8),
              ("diamond", "Diamond", [L([2], "D2"), L([2], "D2")], "thorough", 6), ("sum1", "Sum(1)", [L([2, 2])], "thorough", 8),
